@@ -605,7 +605,7 @@ func cmdRun(args []string) int {
 	solverKind := fs.String("solver", "z3-new", "solver")
 	noReplay := fs.Bool("noreplay", false, "skip native replay (candidates are then not reported as violations)")
 	keep := fs.Bool("keep", false, "keep worker outputs")
-	budget := fs.Duration("budget", 0, "wall budget per worker (default 5m quick, 50m thorough)")
+	budget := fs.Duration("budget", 0, "wall budget for the whole exploration, shared fairly among the workers (default 12m quick, 45m thorough)")
 	fs.Parse(args)
 	if *prop == "" {
 		fmt.Fprintln(os.Stderr, "run: -prop required")
@@ -646,10 +646,33 @@ func cmdRun(args []string) int {
 		qt = 60000
 	}
 	if *budget == 0 {
-		*budget = 5 * time.Minute
+		*budget = 12 * time.Minute
 		if *tier == "thorough" {
-			*budget = 50 * time.Minute
+			*budget = 45 * time.Minute
 		}
+	}
+	// every worker gets a fair share of what is left of the overall budget when it starts:
+	// remaining time x parallel slots / workers not yet started (at least 30 s)
+	overall := time.Now().Add(*budget)
+	var shareMu sync.Mutex
+	notStarted := len(sel)
+	share := func() time.Duration {
+		shareMu.Lock()
+		defer shareMu.Unlock()
+		left := time.Until(overall)
+		d := left
+		if notStarted > *jobs {
+			d = left * time.Duration(*jobs) / time.Duration(notStarted)
+		}
+		notStarted--
+		floor := 30 * time.Second
+		if *tier != "thorough" {
+			floor = 5 * time.Minute // quick bounds are chosen so that every worker ends well within this
+		}
+		if d < floor {
+			d = floor
+		}
+		return d
 	}
 	results := make([]*WorkerResult, len(sel))
 	loadSem := make(chan struct{}, 5)
@@ -664,7 +687,7 @@ func cmdRun(args []string) int {
 			defer func() { <-sem }()
 			outp := filepath.Join(tmp, fmt.Sprintf("%s-%d.json", h.name, k))
 			cmd := exec.Command(self, "worker", "-repo", *repo, "-prop", *prop, "-harness", h.name, "-out", outp,
-				"-tier", *tier, "-solver", *solverKind, "-qtimeout", fmt.Sprint(qt), "-fix", h.fix, "-budget", budget.String(), "-shard", h.shard)
+				"-tier", *tier, "-solver", *solverKind, "-qtimeout", fmt.Sprint(qt), "-fix", h.fix, "-budget", share().String(), "-shard", h.shard)
 			cmd.Env = append(os.Environ(), "GOFLAGS=-mod=mod", "GOPROXY=off", "GOSUMDB=off", "GOTOOLCHAIN=local")
 			var errb strings.Builder
 			cmd.Stderr = &errb
@@ -912,6 +935,7 @@ func report(repo, prop, tier string, results []*WorkerResult, hfs []harnessFile,
 	decided := map[string]bool{}
 	unsupByHarness := map[string]string{}
 	vacReported := map[string]bool{}
+	cutShort := map[string]bool{} // harnesses with a shard stopped by the budget or a solver timeout
 	for k, r := range results {
 		h := sel[k]
 		if r.Error != "" {
@@ -948,6 +972,9 @@ func report(repo, prop, tier string, results []*WorkerResult, hfs []harnessFile,
 			}
 		}
 		reachByHarness[h.name] += nreach + len(r.Candidates)
+		if !r.Exhausted || r.Inconclusive > 0 {
+			cutShort[h.name] = true
+		}
 		if nreach == 0 && len(r.Candidates) == 0 && len(r.Unsupported) > 0 {
 			unsupByHarness[h.name] = fmt.Sprint(r.Unsupported)
 		}
@@ -1068,6 +1095,12 @@ func report(repo, prop, tier string, results []*WorkerResult, hfs []harnessFile,
 	for _, h := range sel {
 		if n, seen := reachByHarness[h.name]; seen && n == 0 && !vacReported[h.name] {
 			vacReported[h.name] = true
+			if cutShort[h.name] {
+				// nothing was decided for this harness within the budget: a reduced bound
+				// (reported in the evidence as not exhaustive), not a broken harness
+				fmt.Fprintf(os.Stderr, "NOTE: %s: no assertion reached before the budget ran out\n", h.name)
+				continue
+			}
 			machinery = append(machinery, fmt.Sprintf("%s: vacuous — no assertion reached on any path (%s)", h.name, unsupByHarness[h.name]))
 		}
 	}
